@@ -3,6 +3,7 @@
 from __future__ import annotations
 
 import re
+from urllib.parse import quote
 
 from hypothesis import strategies as st
 
@@ -37,7 +38,10 @@ FLOOR = {"quick": 300, "thorough": 6000}
 
 EXTS = ["attrs_block", "attrs_inline", "colon_fence", "dollarmath", "deflist"]
 TARGET_KINDS = ["tgt_para", "tgt_head", "attr_para", "attr_span", "attr_head", "dir_note", "dir_admon", "dir_figure", "math",
-                "dir_note_nested", "tgt_list_nested", "attr_quote_nested"]
+                "dir_note_nested", "tgt_list_nested", "attr_quote_nested", "tgt_bare"]
+# names that have to be percent-encoded inside a link destination (only the '(name)=' kinds can carry them)
+SPECIAL_NAMES = ["name with spaces", "\u00fcberblick"]
+SPECIAL_KINDS = ["tgt_para", "tgt_head", "tgt_bare"]
 NAMES = ["alpha", "beta-gamma", "t1", "x-y-z", "note1", "alpha-1", "delta", "fig-a", "eq1", "zeta"]
 TITLES = ["Alpha", "alpha", "Beta gamma", "Alpha 1", "Delta", "Other title"]
 WRAPS = [None, None, None, "quote", "list", "note"]
@@ -117,6 +121,10 @@ def build(case):
                 lines = [f"({name})=", f"## {mk} heading"]
                 tag, title = "section", f"{mk} heading"
                 headings.append({"level": 2, "title": f"{mk} heading", "slug": None, "synthetic": True})
+            elif kind == "tgt_bare":
+                # a target that no following block can take over (a comment follows): the target node itself is the target
+                lines = [f"({name})=", "% a comment, not content"]
+                tag, mk = "target", name
             elif kind == "attr_para":
                 lines = ["{#" + name + "}", f"{mk} paragraph"]
                 tag = "paragraph"
@@ -174,12 +182,13 @@ def build(case):
             mk = f"Lk{n_l}x"
             n_l += 1
             to, form = b["to"], b["form"]
+            enc = quote(to, safe="-") if to in SPECIAL_NAMES else to      # as an author has to write it
             if form == "text":
-                s = f"[{mk}](#{to})"
+                s = f"[{mk}](#{enc})"
             elif form == "empty":
-                s = f"[](#{to})"
+                s = f"[](#{enc})"
             elif form == "project":
-                s = f"<project:#{to}>"
+                s = f"<project:#{enc}>"
             else:
                 s = f"[{mk}](<#{to}>)"
             w = b.get("wrap")
@@ -198,6 +207,9 @@ def find_marker_node(doc, marker, tag):
     from docutils import nodes
 
     best = None
+    if tag == "target":
+        want = nodes.fully_normalize_name(marker)
+        return next((n for n in doc.findall(nodes.target) if want in n.get("names", []) or want in n.get("dupnames", [])), None)
     for n in doc.findall(lambda n: isinstance(n, nodes.Element) and n.tagname == tag):
         if tag == "section":
             # the marker is part of the title; links with empty text may show it elsewhere
@@ -408,6 +420,10 @@ def case_st(draw):
     for nm in names:
         blocks.append({"t": "target", "kind": draw(st.sampled_from(TARGET_KINDS)), "name": nm,
                        "wrap": draw(st.sampled_from(WRAPS))})
+    specials = draw(st.lists(st.sampled_from(SPECIAL_NAMES), max_size=2, unique=True)) if draw(st.integers(0, 2)) == 0 else []
+    for nm in specials:
+        blocks.append({"t": "target", "kind": draw(st.sampled_from(SPECIAL_KINDS)), "name": nm, "wrap": draw(st.sampled_from(WRAPS))})
+    names = list(names) + specials
     for _ in range(draw(st.integers(0, 5))):
         blocks.append({"t": "heading", "level": draw(st.integers(1, 3)), "title": draw(st.sampled_from(TITLES)),
                        "wrap": draw(st.sampled_from([None, None, None, "quote", "list", "note"]))})
@@ -459,6 +475,24 @@ def sub_each(acc, shard, nshards, tier, seed):
                         blocks = [hd, tg, lk, lk2] if order == 0 else [lk, lk2, tg, hd]
                         case = {"anchors": 2, "blocks": blocks}
                         for v in check_case(acc, case):
+                            if kn.matches(v):
+                                acc.known_hits[v["signature"]] += 1
+                            elif len(acc.violations) < 8 and all(v["signature"] != x["signature"] for x in acc.violations):
+                                acc.violations.append(v)
+    # names that must be percent-encoded in the destination x the kinds that can carry them x every link form / wrapper
+    for nm in SPECIAL_NAMES:
+        for kind in SPECIAL_KINDS:
+            for form in FORMS:
+                for lw in [None, "quote", "list", "note", "cell"]:
+                    for order in (0, 1):
+                        i += 1
+                        if i % nshards != shard:
+                            continue
+                        tg = {"t": "target", "kind": kind, "name": nm, "wrap": None}
+                        lk = {"t": "link", "form": form, "to": nm, "wrap": lw}
+                        hd = {"t": "heading", "level": 1, "title": "Alpha"}
+                        blocks = [hd, tg, lk] if order == 0 else [lk, tg, hd]
+                        for v in check_case(acc, {"anchors": 2, "blocks": blocks}):
                             if kn.matches(v):
                                 acc.known_hits[v["signature"]] += 1
                             elif len(acc.violations) < 8 and all(v["signature"] != x["signature"] for x in acc.violations):
